@@ -24,6 +24,7 @@ fn main() {
                 }
             }
         }
+        Some("c05child") => props::c05::child(args.get(2).expect("space"), args.get(3).expect("id").parse().expect("id")),
         Some("c20child") => props::c20::child(args.get(2).expect("space"), args.get(3).expect("id").parse().expect("id")),
         Some("dbg08") => { props::c08::debug_scalings(); 0 }
         Some("replay") => props::replay(args.get(2).expect("path")),
